@@ -6,6 +6,7 @@ import warnings
 import numpy as np
 import fits
 from props import metric_common as mc
+from props.c20 import HEADER
 from props.c04 import host
 from vcore import qdy, qopt, glist, REPO
 
@@ -231,7 +232,7 @@ def run(ctx):
 
   nfound = 0
   if ok:
-    res = ctx.run_cases('c16', mc.HEADER, terms, per_file=1500)
+    res = ctx.run_cases('c16', HEADER, terms, per_file=1500)
     for r, rec in zip(res, recs):
       ctx.count('correspondence_exact', 1)
       if r is False:
